@@ -128,6 +128,13 @@ def make_case(ctx, rng, route, norb):
         r = rng.choice([1, 2, 2, 3]) if norb > 2 else rng.choice([1, 2])
         cre = rng.sample(range(2 * norb), r)
         ann = rng.sample(range(2 * norb), r)
+        if rng.random() < 0.5:
+            # a spin flip times one or two number operators (alpha and/or beta): n_m ... a^_p(alpha) a_q(beta)
+            p_, q_ = 2 * rng.randrange(norb), 2 * rng.randrange(norb) + 1
+            if rng.random() < 0.5:
+                p_, q_ = q_, p_
+            nums = rng.sample([m for m in range(2 * norb) if m not in (p_, q_)], rng.randint(1, min(2, 2 * norb - 2)))
+            cre, ann = nums + [p_], nums + [q_]
         if sorted(cre) == sorted(ann):
             return None
         c = small() + (1j * small() if rng.random() < 0.5 else 0)
